@@ -200,8 +200,9 @@ Theorem C15_closed_connection_reports_nothing : forall secret w slot st n other 
 Proof. exact closed_reports_nothing. Qed.
 Print Assumptions C15_closed_connection_reports_nothing.
 
-(* Census, for every sequence of server events (authentications, reports at any site, client
-   closes, handler returns, API requests): GET /online lists for every user exactly the
+(* Census, for every sequence of server events (authentications, further - also concurrent - auth
+   requests on an authenticated connection, reports at any site, client closes, handler returns, API
+   requests; a further auth request changes nothing: last clause): GET /online lists for every user exactly the
    connections whose handler has not yet returned; that is never less than the user's open
    connections and, once the handlers of all closed connections have returned, exactly them. *)
 Theorem C15_census : forall secret evs i,
@@ -211,9 +212,23 @@ Theorem C15_census : forall secret evs i,
   (0 <= c)%Z /\ get i (online (logger w)) = (if (c =? 0)%Z then None else Some c) /\
   snd (wstep secret w (EHttp (mkReq secret "GET" "/online" "" None))) =
     WHttp StatusOK (BOnline (online (logger w))) /\
-  (nopen i (conns w) <= c)%Z /\ (quiescent (conns w) -> c = nopen i (conns w)).
+  (nopen i (conns w) <= c)%Z /\ (quiescent (conns w) -> c = nopen i (conns w)) /\
+  (forall slot j, fst (wstep secret w (EAuthAgain slot j)) = w).
 Proof. exact census. Qed.
 Print Assumptions C15_census.
+
+(* The last clause needs the whole auth handler to be one atomic section per request (authMutex).  In
+   the variant where the mutex covers only the stores, a second request in flight on the same
+   connection runs the success branch too: one connection is listed twice, and once for ever after it
+   has disconnected and its handler has returned. *)
+Theorem C15_auth_not_atomic_refuted : forall secret,
+  let w0 := wrun secret init_world [EAuth 0%N] in
+  let w1 := auth_again_unlocked w0 0 in
+  let w2 := wrun secret w1 [EClientClose 0; EHandlerReturn 0] in
+  nlisted 0%N (conns w1) = 1%Z /\ get 0%N (online (logger w1)) = Some 2%Z /\
+  nopen 0%N (conns w2) = 0%Z /\ nlisted 0%N (conns w2) = 0%Z /\ get 0%N (online (logger w2)) = Some 1%Z.
+Proof. exact auth_unlocked_refuted. Qed.
+Print Assumptions C15_auth_not_atomic_refuted.
 
 (* Kick disconnects, end to end: in any reachable world, if a kick of a user is pending, that
    user's next report - at whichever site, on whichever of its open connections - is refused,
